@@ -32,6 +32,7 @@ func runC16(c *Ctx) {
 	ruleTimeOfRoundGuards(c, "R16.4")
 	ruleSecondsDomain(c, "R16.5")
 	ruleTickPairConsistent(c, "R16.6")
+	ruleClockSource(c, "R16.7") // tick times are readings of the injected clock taken when the tick is emitted
 }
 
 func isGenesisLike(o Origin) bool {
